@@ -266,3 +266,71 @@ def main(run):
             for o in list(outs)[:2000]:
                 run.nontriv(("long", kind, k, tg, o))
     run.sample({"long_stream": {"kind": "uniform", "k": 7, "updates": n_long, "x_t": {"t": "t", "v": "t*t"}, "y_t": ["y", "t"]}})
+    # ---- storages driven THROUGH the explainers (the usual way), with callbacks that fail now and then and a caller that carries
+    # on: after every explain_one - successful or failed - the content must be what the update calls seen at the storage's own
+    # boundary imply (nothing is taken back, dropped or added behind the storage's update interface)
+    explainer_driven(run, rnd, 40 if not thorough else 160)
+
+
+def explainer_driven(run, rnd, n_cfg):
+    from ..harness import Scenario, gen_cfg
+    from ..probes import InjectedFault
+    from .c17 import BatchScenario
+    for c in range(n_cfg):
+        seed = rnd.randrange(2 ** 31)
+        which = ["sage", "pfi", "interval", "interval", "batch"][c % 5]
+        try:
+            if which in ("sage", "pfi"):
+                cfg = gen_cfg(rnd, which, exact=True)
+                if cfg["storage"][0] == "library-default":
+                    cfg["storage"] = ("interval", 3, True)
+                cfg.update(manual_updates=False, warm_start=0, steps=min(cfg["steps"], 16))
+                sc = Scenario(cfg, seed)
+                spec = cfg["storage"]
+                kind, tg = spec[0], bool(spec[-1]) if isinstance(spec[-1], bool) else False
+                cap = spec[1] if kind in ("uniform", "geometric", "interval") else (1 if kind == "sequence" else 10 ** 9)
+                steps = cfg["steps"]
+            else:
+                sc = BatchScenario(which, seed, rnd)
+                kind, tg = ("interval" if which == "interval" else "batch"), True
+                cap = sc.e._storage.size if which == "interval" and hasattr(sc.e._storage, "size") else (3 if seed % 3 else 16)
+                if which == "batch":
+                    cap = 10 ** 9
+                steps = 12 if which == "batch" else 3 * cap + 4
+        except Exception as ex:
+            run.other_error(f"C15:construct:{type(ex).__name__}")
+            continue
+        st = sc.storage if which in ("sage", "pfi") else sc.e._storage if hasattr(sc.e, "_storage") else None
+        if st is None:
+            continue
+        arrivals = []
+        failed = 0
+        for t in range(steps):
+            x, y = sc.next_obs()
+            if t >= 1 and rnd.random() < 0.3:
+                sc.clock.fail_at_next = rnd.randrange(1, 12)
+            try:
+                if which in ("sage", "pfi"):
+                    sc.step(x, y)
+                else:
+                    sc.step(x, y)
+            except InjectedFault:
+                failed += 1
+            except Exception as ex:
+                run.ok(kind="explainer-driven")
+                run.violation("deterministic:explain-raises" if kind in ("interval", "batch", "sequence") else f"{kind}:explain-raises",
+                              f"{which} step {t}: {type(ex).__name__}: {ex}", {"explainer": which, "seed": seed, "step": t})
+                break
+            sc.clock.fail_at_next = sc.clock.fail_at = None      # (the monitor's own reads go through the proxy too)
+            arrivals += [(e[1], e[2]) for e in sc.clock.log if e[0] == "storage.update"]
+            try:
+                invariant_multi(st, arrivals, cap, tg, kind)
+                run.ok(kind="explainer-driven")
+            except Bad as b:
+                run.ok(kind="explainer-driven")
+                run.violation(f"{kind if kind in ('geometric', 'uniform') else 'deterministic'}:{b.mech}",
+                              f"{kind} storage (capacity {cap}) driven by {which} explainer, after call {t + 1} ({failed} calls failed in a callback so far): {b}",
+                              {"explainer": which, "kind": kind, "capacity": cap, "seed": seed, "step": t, "failed_calls": failed})
+                break
+        run.count("explainer-driven-failed-calls", failed)
+        run.nontriv(("explainer-driven", which, kind, c, run.shard[0]))
